@@ -180,3 +180,11 @@ def simplify(scenario):
         return
     for c in _simplify_acct(scenario):
         yield c
+
+
+def _wrap_driver():
+    from tesim import gen_epi
+    return gen_epi.with_backtest_driver(generate_epi, 0.2)
+
+
+generate_epi = _wrap_driver()
